@@ -127,23 +127,47 @@ def parse_output(line):
     return obs, panicked
 
 
+SENTINEL_CRASH = 4294967294
+
+
 def run_rust(codec, profile, scripts, tag):
-    """Run the scripts through the real implementation. Returns list of (obs, panicked)."""
+    """Run the scripts through the real implementation. Returns list of (obs, panicked).
+    If the process dies (signal: the implementation hit undefined behaviour), the script it died on
+    gets the observation [SENTINEL_CRASH] and execution resumes with the next script."""
     ok, msg = build_harness(profile)
     if not ok:
         raise CheckError("harness does not build against /repo (%s): %s" % (profile, msg))
-    path = os.path.join(BUILD, "scripts_%s.txt" % tag)
-    with open(path, "w") as f:
-        for s in scripts:
-            f.write(script_text(s) + "\n")
-    p = sh([harness_bin(profile), "vm", codec, path], timeout=900, check=False)
-    lines = p.stdout.split("\n")
-    if lines and lines[-1] == "":
-        lines.pop()
-    if p.returncode != 0 or len(lines) != len(scripts):
-        raise CheckError("harness vm failed (rc=%s, %d/%d lines): %s" % (
-            p.returncode, len(lines), len(scripts), p.stderr[-3000:]))
-    return [parse_output(l) for l in lines]
+    outs = []
+    start = 0
+    crashes = 0
+    while start < len(scripts):
+        path = os.path.join(BUILD, "scripts_%s.txt" % tag)
+        with open(path, "w") as f:
+            for s in scripts[start:]:
+                f.write(script_text(s) + "\n")
+        p = sh([harness_bin(profile), "vm", codec, path], timeout=900, check=False)
+        lines = p.stdout.split("\n")
+        if lines and lines[-1] == "":
+            lines.pop()
+        if p.returncode == 0 and len(lines) == len(scripts) - start:
+            outs += [parse_output(l) for l in lines]
+            break
+        if p.returncode >= 0 and p.returncode != 0:
+            raise CheckError("harness vm failed (rc=%s, %d/%d lines): %s" % (
+                p.returncode, len(lines), len(scripts) - start, p.stderr[-3000:]))
+        # killed by a signal: lines[0..k) are complete, script k crashed the process
+        good = [l for l in lines if l.startswith("o") or l == ""]
+        k = len(good)
+        outs += [parse_output(l) for l in good]
+        outs.append(([[SENTINEL_CRASH, -p.returncode]], True))
+        crashes += 1
+        start += k + 1
+        if crashes >= 40:
+            outs += [([[SENTINEL_CRASH, 0]], True)] * (len(scripts) - start)
+            break
+    if len(outs) != len(scripts):
+        raise CheckError("harness vm: %d outputs for %d scripts" % (len(outs), len(scripts)))
+    return outs
 
 
 def obs_coq(out):
